@@ -91,12 +91,14 @@ CHECKS = {
    note=TB + "No executable PowerPC reference is available offline: the opcode table in p_c18.py is hand-written. The per-class string code (str/asm) has no Gallina model.",
    design='4/C18'),
  'C04': dict(
-   technique='lifted IR regenerated from the working tree and evaluated with the extracted Coq denotation Expr.eval (standard bit-vector meaning), compared on boundary x random states with an SDM reference; Coq theorems on the arithmetic/logic group (see level text)',
-   text=("The lifted assignment lists of every integer-core form of the lift catalogue (one byte string per mnemonic x operand size x operand-shape signature; 8/16/32-bit register, immediate and memory operands; "
-         "32-bit addressing; prefixes none/66) are evaluated with the extracted Expr.eval (Expr.v: the standard meaning, all assignments reading the pre-state) on 6 (quick) / 40 (thorough) states per form and compared "
-         "with harness/x86ref.py, an executable reference written from the Intel SDM: 8 general registers, architecturally defined flags (undefined ones skipped), written bytes, next eip / taken-not-taken / pushed return address. "
-         "Deviations present on the unchanged tree are listed per (mnemonic, operand size, output, shift-count class) in known_findings.json; anything else is a violation with the state as replay."),
-   note=TB + "x86ref.py is a hand-written specification (reviewed against the SDM; not verified). Direct branch targets are taken as the operand value (the library resolves displacements before lifting). 16-bit control transfers, bit-string bt with register offsets on memory, divide errors are outside the reference.",
+   technique='Coq theorems for the arithmetic/logic group (mirror of the lifter tied to the regenerated IR by syntactic identity, kernel-checked by reflection) + evaluation of the whole integer core with the extracted Coq denotation against an SDM reference',
+   text=("Theorems (props/C04.v, closed): (tie) every add/adc/sub/sbb/cmp/and/or/xor/test form of the lifted dump regenerated from /repo (>2000 forms: every operand shape and width) with operands of equal width is, node for node, "
+         "the mirror Sem.v applied to its own operands; (meaning) for ALL operand expressions of equal width n in {8,16,32}, all valuations of registers/flags/memory and all operator interpretations: the value is the n-bit sum/difference/bitwise result "
+         "(carry-in for adc/sbb), cf is the carry/borrow out, of the signed overflow, zf/sf/pf those of the result; the XOR-based carry identities are proved for every width and value. af is refuted (known finding). "
+         "The rest of the integer core (inc/dec/neg/not, shifts, rotates, double shifts, mul/div, bit ops, extensions, flag ops, setcc/cmovcc, xchg/xadd/cmpxchg, lea, stack, string, control transfer) is NOT a theorem: "
+         "the regenerated IR of every catalogue form (+ an addressing-mode sweep over every ModRM/SIB byte) is evaluated by the extracted Expr.eval on 6 (quick) / 40 (thorough) boundary x random states and compared with harness/x86ref.py "
+         "(registers, defined flags, written bytes, eip). Deviations on the unchanged tree are listed per (mnemonic, operand size, output, shift-count class)."),
+   note=TB + "Sem.v is a hand mirror of ia32_sem.py's flag helpers and 9 semantic functions; its tie to the code is the kernel-checked identity with the regenerated IR (SemFacts.v), re-proved on every run. The destination write-back through ExprAff's slice rewriting (mk_aff) is mirrored and tied but its bit-level meaning is not yet a theorem. x86ref.py is a hand-written specification (reviewed against the SDM; not verified).",
    design='4/C04', category='other'),
  'C08': dict(
    technique='Coq theorem (coincidence lifted to assignment lists: nothing outside get_r can influence any value of ANY lifted list) + dependency and write probing of the implementation-reported sets against the SDM reference and an SSE operand-role table',
